@@ -175,6 +175,15 @@ Proof.
   - simpl. apply IHs. exact X.
 Qed.
 
+Lemma dict_insert_ok : forall k w all l v, dict_insert E k w all l = Ok v -> v = IDict k w all.
+Proof.
+  induction l as [|kv r IH]; intros v H; simpl in H.
+  - inversion H; reflexivity.
+  - destruct (copy_fails (fst kv) || copy_fails (snd kv)); [discriminate|].
+    destruct (negb (is_sub_static D (dyn_type (fst kv)) k && is_sub_static D (dyn_type (snd kv)) w)); [discriminate|].
+    destruct (hash_fails E (fst kv)); [discriminate|]. apply IH. exact H.
+Qed.
+
 (* run-time types of imported values never end in Any *)
 Lemma import_not_any : forall x exp v,
   decode_ok x = true -> import E lcs x exp = Ok v -> is_prim (unwrap_opt (dyn_type v)) PAny = false.
@@ -201,25 +210,11 @@ Proof.
   - (* dictionaries *)
     match type of H with (let* vs := ?G in _) = _ => destruct G as [kvs|] end; simpl in H; [|discriminate].
     destruct exp as [[| | | |k w| | | | |]|];
-      try (repeat match type of H with
-                  | match ?c with _ => _ end = _ => destruct c
-                  | (if ?c then _ else _) = _ => destruct c
-                  end; try discriminate; inversion H; reflexivity).
-    (* typed dictionary: the insertion loop returns the dictionary or an error *)
-    assert (G : forall l, (fix ins (l : list (ival * ival)) : res ival :=
-               match l with
-               | [] => Ok (IDict k w kvs)
-               | kv :: r =>
-                   if negb (is_sub_static D (dyn_type (fst kv)) k && is_sub_static D (dyn_type (snd kv)) w)
-                   then Err UserOther
-                   else if copy_fails (fst kv) || copy_fails (snd kv) then Err HostFail
-                   else ins r
-               end) l = Ok v -> v = IDict k w kvs).
-    { induction l0 as [|kv r IHr]; intro HH.
-      - inversion HH; reflexivity.
-      - destruct (negb (is_sub_static D (dyn_type (fst kv)) k && is_sub_static D (dyn_type (snd kv)) w)); [discriminate|].
-        destruct (copy_fails (fst kv) || copy_fails (snd kv)); [discriminate|]. apply IHr. exact HH. }
-    rewrite (G _ H). reflexivity.
+      repeat match type of H with
+             | match ?c with _ => _ end = _ => destruct c
+             | (if ?c then _ else _) = _ => destruct c
+             end; try discriminate;
+      rewrite (dict_insert_ok _ _ _ _ _ H); reflexivity.
   - (* composites *)
     destruct (negb (comp_declared E c)); [discriminate|].
     match type of H with (let* vs := ?G in _) = _ => destruct G end; simpl in H; [|discriminate].
@@ -322,35 +317,86 @@ Proof.
   - inversion HE; subst. eapply Hy. exact Ey.
 Qed.
 
-Lemma ins_user : forall k w (kvs l : list (ival * ival)) e0,
-  (fix ins (l : list (ival * ival)) : res ival :=
-     match l with
-     | [] => Ok (IDict k w kvs)
-     | kv :: r =>
-         if negb (is_sub_static D (dyn_type (fst kv)) k && is_sub_static D (dyn_type (snd kv)) w)
-         then Err UserOther
-         else if copy_fails (fst kv) || copy_fails (snd kv) then Err HostFail
-         else ins r
-     end) l = Err e0 -> ue e0.
+(* arguments whose dictionary keys are not composites (no enum keys): key hashing cannot fail *)
+Definition is_xcomp (x : xval) : bool := match x with XComp _ _ _ => true | _ => false end.
+Definition is_icomp (v : ival) : bool := match v with IComp _ _ _ => true | _ => false end.
+
+Fixpoint plain_keys (x : xval) : bool :=
+  match x with
+  | XSome y => plain_keys y
+  | XArray l => forallb plain_keys l
+  | XDict l => forallb (fun kv => negb (is_xcomp (fst kv)) && plain_keys (fst kv) && plain_keys (snd kv)) l
+  | XComp _ _ fs => forallb (fun f => plain_keys (snd f)) fs
+  | _ => true
+  end.
+
+Lemma import_noncomp : forall x exp v, is_xcomp x = false -> import E lcs x exp = Ok v -> is_icomp v = false.
 Proof.
-  induction l as [|kv r IH]; intros e0 HE; [discriminate|].
-  destruct (negb (is_sub_static D (dyn_type (fst kv)) k && is_sub_static D (dyn_type (snd kv)) w)).
-  - inversion HE; left; reflexivity.
-  - destruct (copy_fails (fst kv) || copy_fails (snd kv)).
-    + inversion HE; right; reflexivity.
-    + apply IH. exact HE.
+  intros x exp v NX H. destruct x; simpl in NX; try discriminate; cbn [import] in H;
+    try (inversion H; reflexivity).
+  - match type of H with (let* v0 := ?G in _) = _ => destruct G end; simpl in H; [inversion H; reflexivity | discriminate].
+  - destruct t; [inversion H; reflexivity | discriminate].
+  - match type of H with (let* vs := ?G in _) = _ => destruct G end; simpl in H; [|discriminate].
+    match type of H with (let* ty0 := ?G in _) = _ => destruct G end; simpl in H; [|discriminate].
+    match type of H with (if ?c then _ else _) = _ => destruct c end; [discriminate|]. inversion H; reflexivity.
+  - match type of H with (let* vs := ?G in _) = _ => destruct G as [kvs|] end; simpl in H; [|discriminate].
+    destruct exp as [[| | | |k w| | | | |]|];
+      repeat match type of H with
+             | match ?c with _ => _ end = _ => destruct c
+             | (if ?c then _ else _) = _ => destruct c
+             end; try discriminate;
+      rewrite (dict_insert_ok _ _ _ _ _ H); reflexivity.
+  - destruct b; try discriminate; inversion H; reflexivity.
+Qed.
+
+Lemma hash_ok_noncomp : forall v, is_icomp v = false -> hash_fails E v = false.
+Proof. destruct v; simpl; intro H; try reflexivity; discriminate. Qed.
+
+Lemma dict_insert_user : forall k w all l e0,
+  Forall (fun kv => is_icomp (fst kv) = false) l ->
+  dict_insert E k w all l = Err e0 -> ue e0.
+Proof.
+  induction l as [|kv r IH]; intros e0 HF HE; simpl in HE; [discriminate|].
+  inversion HF as [|? ? Hk Hr]; subst.
+  destruct (copy_fails (fst kv) || copy_fails (snd kv)); [inversion HE; right; reflexivity|].
+  destruct (negb (is_sub_static D (dyn_type (fst kv)) k && is_sub_static D (dyn_type (snd kv)) w));
+    [inversion HE; left; reflexivity|].
+  rewrite (hash_ok_noncomp _ Hk) in HE. apply IH; assumption.
+Qed.
+
+(* the keys produced by the pair loop for non-composite key arguments are not composites *)
+Lemma go_pairs_keys : forall (f1 f2 : xval -> res ival) l kvs,
+  (forall a v, is_xcomp a = false -> f1 a = Ok v -> is_icomp v = false) ->
+  Forall (fun p => is_xcomp (fst p) = false) l ->
+  (fix go (l : list (xval * xval)) : res (list (ival * ival)) :=
+     match l with
+     | [] => Ok []
+     | (a, b) :: r => let* k := f1 a in let* w := f2 b in let* rest := go r in Ok ((k, w) :: rest)
+     end) l = Ok kvs ->
+  Forall (fun kv => is_icomp (fst kv) = false) kvs.
+Proof.
+  induction l as [|[a b] r IH]; intros kvs Hf HF HE.
+  - inversion HE; constructor.
+  - inversion HF as [|? ? Ha Hr]; subst. simpl in Ha.
+    destruct (f1 a) eqn:E1; simpl in HE; [|discriminate].
+    destruct (f2 b) eqn:E2; simpl in HE; [|discriminate].
+    match type of HE with (let* rest := ?G in _) = _ => destruct G eqn:EG end; simpl in HE; [|discriminate].
+    inversion HE; subst. constructor.
+    + simpl. eapply Hf; [exact Ha | exact E1].
+    + apply IH; [exact Hf | exact Hr | reflexivity].
 Qed.
 
 Lemma import_err_user : forall x exp e,
-  (forall ts, lcs ts <> None) -> import E lcs x exp = Err e -> ue e.
+  (forall ts, lcs ts <> None) -> plain_keys x = true -> import E lcs x exp = Err e -> ue e.
 Proof.
   intros x exp e TOT. revert exp e.
   induction x as [| |x IH|b|s|s|a|p n|d i|t|l IH|l IH|k c fs IH|b a i| |] using xval_ind';
-    intros exp e0 HE; cbn [import] in HE; try discriminate.
+    intros exp e0 PK HE; cbn [import] in HE; try discriminate.
   - destruct (import E lcs x match exp with Some (TOpt t) => Some t | _ => None end) eqn:EI; simpl in HE; [discriminate|].
-    inversion HE; subst. eapply IH. exact EI.
+    inversion HE; subst. eapply IH; [exact PK | exact EI].
   - destruct t; [discriminate | inversion HE; left; reflexivity].
   - (* arrays *)
+    simpl in PK. rewrite forallb_forall in PK.
     match type of HE with (let* vs := ?G in _) = _ => destruct G as [vs|e1] eqn:EG end; simpl in HE.
     + match type of HE with (let* ty0 := ?G in _) = _ => destruct G as [[cs0 el0]|e1] eqn:ET end; simpl in HE.
       * destruct (existsb copy_fails vs); [inversion HE; right; reflexivity | discriminate].
@@ -359,43 +405,58 @@ Proof.
     + inversion HE; subst.
       eapply (go_list_user (fun y => import E lcs y
                  match exp with Some (TVar e) => Some e | Some (TConst e _) => Some e | _ => None end)); [|exact EG].
-      eapply Forall_impl; [|exact IH]. intros y Hy e1 He1. eapply Hy. exact He1.
+      rewrite Forall_forall in *. intros y Hy e1 He1. eapply IH; [exact Hy | apply PK; exact Hy | exact He1].
   - (* dictionaries *)
+    simpl in PK. rewrite forallb_forall in PK.
     match type of HE with (let* vs := ?G in _) = _ => destruct G as [kvs|e1] eqn:EG end; simpl in HE.
-    + destruct exp as [[| | | |k w| | | | |]|];
-        try (repeat match type of HE with
+    + assert (KS : Forall (fun kv => is_icomp (fst kv) = false) kvs).
+      { eapply (go_pairs_keys
+                  (fun y => import E lcs y match exp with Some (TDict k _) => Some k | _ => None end)
+                  (fun y => import E lcs y match exp with Some (TDict _ w) => Some w | _ => None end)); [| |exact EG].
+        - intros a0 v0 Ha0 Hv0. eapply import_noncomp; [exact Ha0 | exact Hv0].
+        - rewrite Forall_forall. intros kv Hkv. specialize (PK kv Hkv).
+          apply andb_true_iff in PK. destruct PK as [PK _]. apply andb_true_iff in PK. destruct PK as [PK _].
+          apply negb_true_iff in PK. exact PK. }
+      destruct exp as [[| | | |k w| | | | |]|];
+        repeat match type of HE with
                | match ?c with _ => _ end = _ => destruct c
                | (if ?c then _ else _) = _ => destruct c
-               end; try discriminate; inversion HE; (left; reflexivity) || (right; reflexivity)).
-      eapply ins_user. exact HE.
+               end; try discriminate;
+        try (inversion HE; left; reflexivity);
+        (eapply dict_insert_user; [exact KS | exact HE]).
     + inversion HE; subst.
       eapply (go_pairs_user
                 (fun y => import E lcs y match exp with Some (TDict k _) => Some k | _ => None end)
                 (fun y => import E lcs y match exp with Some (TDict _ w) => Some w | _ => None end)); [|exact EG].
-      eapply Forall_impl; [|exact IH]. intros kv [H1 H2]. split; intros e1 He1; [eapply H1 | eapply H2]; exact He1.
+      rewrite Forall_forall in *. intros kv Hkv. specialize (PK kv Hkv).
+      apply andb_true_iff in PK. destruct PK as [PK P2]. apply andb_true_iff in PK. destruct PK as [_ P1].
+      destruct (IH kv Hkv) as [H1 H2].
+      split; intros e1 He1; [eapply H1 | eapply H2]; eassumption.
   - (* composites *)
+    simpl in PK. rewrite forallb_forall in PK.
     destruct (negb (comp_declared E c)); [inversion HE; left; reflexivity|].
     match type of HE with (let* vs := ?G in _) = _ => destruct G as [fl|e1] eqn:EG end; simpl in HE.
     + destruct (existsb (fun f => copy_fails (snd f)) fl); [inversion HE; right; reflexivity | discriminate].
     + inversion HE; subst.
       eapply (go_fields_user (fun n y => import E lcs y (lookup n (comp_fields E c)))); [|exact EG].
-      eapply Forall_impl; [|exact IH]. intros f Hf n e1 He1. eapply Hf. exact He1.
+      rewrite Forall_forall in *. intros f Hf n e1 He1. eapply IH; [exact Hf | apply PK; exact Hf | exact He1].
   - destruct b; try (inversion HE; left; reflexivity); discriminate.
   - inversion HE; left; reflexivity.
   - inversion HE; left; reflexivity.
 Qed.
 
-(* if element-type inference never fails, no rejection is an internal error *)
+(* if element-type inference never fails and no dictionary key of the argument is a composite,
+   no rejection is an internal error *)
 Theorem reject_user_error : forall T x,
-  (forall ts, lcs ts <> None) -> validate E lcs T x <> Reject RInternal.
+  (forall ts, lcs ts <> None) -> plain_keys x = true -> validate E lcs T x <> Reject RInternal.
 Proof.
-  intros T x TOT H. unfold validate in H.
+  intros T x TOT PK H. unfold validate in H.
   destruct (decode_ok x); simpl in H; [|discriminate].
   destruct (import E lcs x (Some T)) as [w|e] eqn:EI.
   - destruct (importable E w); simpl in H; [|discriminate].
     destruct (is_sub_of_sema D (dyn_type w) T); simpl in H; [|discriminate].
     destruct (conforms E w); discriminate.
-  - destruct (import_err_user _ _ _ TOT EI) as [X|X]; subst e; discriminate.
+  - destruct (import_err_user _ _ _ TOT PK EI) as [X|X]; subst e; discriminate.
 Qed.
 
 (* a number that does not fit its type is rejected by the decoder, wherever it occurs at the top *)
@@ -417,6 +478,18 @@ Theorem nested_simple_array_copy_error :
   validate E0 lcs0 (TVar (TVar (TPrim PInt))) (XArray [XArray [XComp KStruct 0 [(0%nat, XNum PInt 1)]]]) = Reject RMalformed /\
   validate E0 lcs0 (TVar (TPrim PWord16)) (XArray [XComp KStruct 0 [(0%nat, XNum PInt 1)]]) = Reject RMalformed.
 Proof. vm_compute. repeat split. Qed.
+
+(* an enum dictionary key without rawValue, or tagged as a struct, or with a container raw value: key hashing
+   raises an internal error; a wrongly typed scalar raw value is a malformed-value rejection *)
+Definition en_key (fs : list (nat * xval)) : xval := XDict [(XComp KEnum 6 fs, XNum PInt 1)].
+Theorem enum_key_hash_internal :
+  validate E0 lcs0 (TDict (TComp 6) (TPrim PInt)) (en_key []) = Reject RInternal /\
+  validate E0 lcs0 (TDict (TComp 6) (TPrim PInt)) (XDict [(XComp KStruct 6 [(8%nat, XNum PUInt8 0)], XNum PInt 1)]) = Reject RInternal /\
+  validate E0 lcs0 (TDict (TComp 6) (TPrim PInt)) (en_key [(8%nat, XArray [XNum PUInt8 1])]) = Reject RInternal /\
+  validate E0 lcs0 (TDict (TComp 6) (TPrim PInt)) (en_key [(8%nat, XString [97])]) = Reject RMalformed /\
+  validate E0 lcs0 (TDict (TComp 6) (TPrim PInt)) (en_key [(8%nat, XNum PUInt16 1)]) = Reject RMalformed /\
+  (exists v, validate E0 lcs0 (TDict (TComp 6) (TPrim PInt)) (en_key [(8%nat, XNum PUInt8 1)]) = Accept v).
+Proof. vm_compute. repeat split. eexists. reflexivity. Qed.
 
 Theorem empty_array_internal :
   validate E0 lcs0 (TPrim PAnyStruct) (XArray []) = Reject RInternal /\
